@@ -12,8 +12,8 @@ package webrtc
 // yields an object, and the value of a parameter is a function of the parsed line and the key.
 //@ func fmtp.Parse
 //@ trusted
-//@ props C10
-//@ ensures result != nil && ufstr("fmtpLine", result) == line
+//@ props C10 C15
+//@ ensures result != nil && ufstr("fmtpLine", result) == line && ufint("fmtpOf", result) == ufint("fmtpDesc", mimeType, clockRate, channels, line)
 //@ modifies nothing
 //@ func (fmtp.FMTP).Parameter
 //@ trusted
@@ -54,3 +54,77 @@ package webrtc
 //@ nosafety
 //@ atcall (*sdp.MediaDescription).WithCodec assert callarg1 == uint8(codec.PayloadType) && callarg3 == codec.ClockRate && callarg4 == codec.Channels && callarg5 == codec.SDPFmtpLine
 //@ loop 0 step ghost(codecCalls) == loophead(ghost(codecCalls)) + 1
+
+// ---------------------------------------------------------------- C15 (search and lookup layers)
+// Assumed of internal/fmtp (its matching rules are C17's subject): whether two parsed
+// descriptions match is a function of the two descriptions.
+//@ func (fmtp.FMTP).Match
+//@ trusted
+//@ props C15
+//@ ensures result == ufbool("fmtpMatch", ufint("fmtpOf", recv), ufint("fmtpOf", f))
+//@ modifies nothing
+//@ func fmtp.ClockRateEqual
+//@ trusted
+//@ props C15
+//@ ensures result == ufbool("clockEq", mimeType, valA, valB)
+//@ modifies nothing
+//@ func fmtp.ChannelsEqual
+//@ trusted
+//@ props C15
+//@ ensures result == ufbool("chanEq", mimeType, valA, valB)
+//@ modifies nothing
+
+// Fuzzy search: an exact result is an entry of the list whose description matches the
+// needle's; a partial result is an entry with compatible mime type / clock rate / channels.
+// Every entry passed over in the first pass did not match exactly, every entry passed over
+// in the second pass is not even compatible (per-iteration postconditions; the loops are
+// only left by exhaustion or by returning the entry found) — so exact is preferred over
+// partial and the first qualifying entry in list order wins.
+//@ func codecParametersFuzzySearch
+//@ props C15
+//@ ensures ret1 == codecMatchExact || ret1 == codecMatchPartial || ret1 == codecMatchNone
+//@ ensures ret1 == codecMatchExact ==> (exists k int :: 0 <= k && k < len(haystack) && ret0.PayloadType == haystack[k].PayloadType && ret0.MimeType == haystack[k].MimeType && ret0.ClockRate == haystack[k].ClockRate && ret0.Channels == haystack[k].Channels && ret0.SDPFmtpLine == haystack[k].SDPFmtpLine && ufbool("fmtpMatch", ufint("fmtpDesc", needle.MimeType, needle.ClockRate, needle.Channels, needle.SDPFmtpLine), ufint("fmtpDesc", haystack[k].MimeType, haystack[k].ClockRate, haystack[k].Channels, haystack[k].SDPFmtpLine)))
+//@ ensures ret1 == codecMatchPartial ==> (exists k int :: 0 <= k && k < len(haystack) && ret0.PayloadType == haystack[k].PayloadType && ret0.MimeType == haystack[k].MimeType && strings.EqualFold(haystack[k].MimeType, needle.MimeType) && ufbool("clockEq", haystack[k].MimeType, haystack[k].ClockRate, needle.ClockRate) && ufbool("chanEq", haystack[k].MimeType, haystack[k].Channels, needle.Channels))
+//@ modifies nothing
+//@ loop 0 step !ufbool("fmtpMatch", ufint("fmtpDesc", needle.MimeType, needle.ClockRate, needle.Channels, needle.SDPFmtpLine), ufint("fmtpDesc", c.MimeType, c.ClockRate, c.Channels, c.SDPFmtpLine))
+//@ loop 0 break false
+//@ loop 1 step !(strings.EqualFold(c.MimeType, needle.MimeType) && ufbool("clockEq", c.MimeType, c.ClockRate, needle.ClockRate) && ufbool("chanEq", c.MimeType, c.Channels, needle.Channels))
+//@ loop 1 break false
+
+// RTCP feedback: an iteration of the outer loop appends at most the visited entry of a (so
+// the result is a sub-list of a, in a's order); the inner loop is left early (towards the
+// append) only at an entry of b with the same type and parameter, and appends nothing while
+// it runs (so an entry is appended only when both sides list it).
+//@ func rtcpFeedbackIntersection
+//@ props C15
+//@ loop 0 step len(out) == loophead(len(out)) || (len(out) == loophead(len(out)) + 1 && out[len(out)-1].Type == aFeedback.Type && out[len(out)-1].Parameter == aFeedback.Parameter)
+//@ loop 1 break bFeeback.Type == aFeedback.Type && bFeeback.Parameter == aFeedback.Parameter && len(out) == loophead(len(out))
+//@ loop 1 step len(out) == loophead(len(out))
+
+// Payload type lookup: the first entry of the list with that payload type, or nil.
+//@ func findCodecByPayload
+//@ props C15
+//@ ensures result != nil ==> fresh(result) && (exists k int :: 0 <= k && k < len(codecs) && codecs[k].PayloadType == payloadType && result.PayloadType == codecs[k].PayloadType && result.MimeType == codecs[k].MimeType && result.ClockRate == codecs[k].ClockRate && result.Channels == codecs[k].Channels && (forall j int :: 0 <= j && j < k ==> codecs[j].PayloadType != payloadType))
+//@ ensures result == nil ==> (forall k int :: 0 <= k && k < len(codecs) ==> codecs[k].PayloadType != payloadType)
+//@ modifies nothing
+//@ loop 0 invariant rangeindex < len(codecs) && (forall k int :: 0 <= k && k <= rangeindex ==> codecs[k].PayloadType != payloadType)
+
+// An incoming payload type is resolved against the negotiated list of a kind before, and
+// instead of, the registered list of that kind.
+//@ func (*MediaEngine).getCodecByPayload
+//@ props C15
+//@ requires m != nil
+//@ ensures m.negotiatedVideo && (exists k int :: 0 <= k && k < len(m.negotiatedVideoCodecs) && m.negotiatedVideoCodecs[k].PayloadType == payloadType) ==> err == nil && ret1 == RTPCodecTypeVideo && ret0.PayloadType == payloadType
+//@ ensures err == nil && ret1 == RTPCodecTypeVideo && m.negotiatedVideo ==> (exists k int :: 0 <= k && k < len(m.negotiatedVideoCodecs) && m.negotiatedVideoCodecs[k].PayloadType == payloadType && ret0.MimeType == m.negotiatedVideoCodecs[k].MimeType)
+//@ ensures err == nil && ret1 == RTPCodecTypeAudio && m.negotiatedAudio ==> (exists k int :: 0 <= k && k < len(m.negotiatedAudioCodecs) && m.negotiatedAudioCodecs[k].PayloadType == payloadType && ret0.MimeType == m.negotiatedAudioCodecs[k].MimeType)
+//@ ensures err == nil ==> ret0.PayloadType == payloadType && (ret1 == RTPCodecTypeVideo || ret1 == RTPCodecTypeAudio)
+//@ ensures err != nil ==> (m.negotiatedVideo ==> (forall k int :: 0 <= k && k < len(m.negotiatedVideoCodecs) ==> m.negotiatedVideoCodecs[k].PayloadType != payloadType)) && (!m.negotiatedVideo ==> (forall k int :: 0 <= k && k < len(m.videoCodecs) ==> m.videoCodecs[k].PayloadType != payloadType))
+//@ modifies nothing
+
+// Once a kind is negotiated, the codec list handed out for it is the negotiated one.
+//@ func (*MediaEngine).getCodecsByKind
+//@ props C15
+//@ requires m != nil
+//@ ensures typ == RTPCodecTypeVideo ==> sameptr(result, ite(m.negotiatedVideo, m.negotiatedVideoCodecs, m.videoCodecs)) && len(result) == len(ite(m.negotiatedVideo, m.negotiatedVideoCodecs, m.videoCodecs))
+//@ ensures typ == RTPCodecTypeAudio ==> sameptr(result, ite(m.negotiatedAudio, m.negotiatedAudioCodecs, m.audioCodecs)) && len(result) == len(ite(m.negotiatedAudio, m.negotiatedAudioCodecs, m.audioCodecs))
+//@ modifies nothing
